@@ -35,6 +35,22 @@ CHECKS = {
          "All 65536 (PType,SType) pairs, all 65536 session ids per request constructor, all status/reason codes, all 65536 (pType,sType) pairs of reject.req for reason 2 and for another reason, every request-kind x response-constructor pair: bytes, Type() and hsms.Parse of the bytes are compared with the layout table of the property.",
          "System bytes and the unconstrained header bytes are boundary + random values; NewHSMSControlMessage with more than ten bytes is outside the stated domain.",
          "DESIGN.md §5 C14"),
+ "C09": ("exploration", "differential monitor: FillVariables vs direct construction by the real factories vs model substitution; set-partition enumeration for composition",
+         "For generated ellipsis-free templates and assignments (total, partial, empty, unknown keys, 11 kinds of out-of-domain values) the filled item must equal the directly constructed one in String/Variables/Size/ToBytes, equal the model substitution, refuse exactly when the factory refuses, and give the same result for every set partition of up to 4 keys (random ordered splits beyond) and at message level.",
+         "Fill-in values are variable-free as the property quantifies; direct construction uses the repository's own factories (their correctness is C12's subject).",
+         "DESIGN.md §5 C09"),
+ "C10": ("exploration", "reference-expander monitor, exhaustive over all small templates x all count maps, random beyond",
+         "Every list template up to a node/level bound over a 5-letter item alphabet with an ellipsis at every legal position, times every count map over {unfilled,0,1,2,3}, times two-step splits, is expanded by the real code and by an independent reference expander; printed form, sizes, variable names (ellipses by position), naming of the remaining ellipses and individual fills of generated names are compared. Random deeper templates with counts up to 12 are added.",
+         "Trusts the reference expander (checked against the documented example each run); counts >= 0; bracket-free base names.",
+         "DESIGN.md §5 C10"),
+ "C16": ("exploration", "three-observer agreement monitor with an independent scanner of the printed form",
+         "For generated items, expansion results, messages and parser-produced messages: Variables() must equal the variable tokens read from String() by the harness's own scanner, hold no name twice, ToBytes() must be non-empty iff there are no variables (messages: and wait bit/session decided), Size() must equal the printed element count, and every printed [n] must equal the elements inside.",
+         "Variable base names avoid T and F; the scanner of the printed form is part of the trusted base.",
+         "DESIGN.md §5 C16"),
+ "C18": ("exploration", "frame-condition monitor against a field-wise model, all producer sequences up to length 3",
+         "Messages in every completeness state are put through all 39 sequences of up to three producers with accepted and rejected arguments; after each call every observable field is compared with a model that changes only the named field, the receiver is re-read, and refusal must coincide with the validity rules.",
+         "Trusts the producer model written from the property statement.",
+         "DESIGN.md §5 C18"),
 }
 
 NOT_YET = {}
